@@ -7,6 +7,8 @@ Require Import Verif.Model.Base Verif.Model.Decision Verif.Model.DecisionRef Ver
 Require Import Verif.Model.EntryPoint Verif.Model.Terminate.
 Require Import Verif.Gen.Tables Verif.Gen.EntryPoints Verif.Gen.Decisions Verif.Gen.PanicSites.
 Require Import Verif.Proofs.TerminateP.
+Require Import Verif.Model.GoSem Verif.Model.TermRef.
+Require Verif.Gen.Termination Verif.Proofs.GenTermP.
 
 (* tie: the translation of the tail of Entry.logContext regenerated from the source equals the
    reference decision, for both process modes, every flags word in Z and every level in Z *)
@@ -14,6 +16,26 @@ Theorem C12_gen_termination : forall in_testing flags lvl,
   Decisions.termination in_testing flags lvl = termination_ref in_testing flags lvl.
 Proof. exact gen_termination. Qed.
 Print Assumptions C12_gen_termination.
+
+(* tie, stronger: EVERY statement of Entry.logContext from the print of the record to the end of the function is
+   translated (Gen/Termination.v: the pooled attribute slice with its length and capacity, the package variables
+   inTesting / inBenching / isDebugging / isDebug as inputs, the print as an event, panic(msg) and os.Exit(code) as
+   the ways the call ends).  For ALL inputs: no slice expression panics, the record is printed exactly once and
+   FIRST, and the call then ends as the decision says - which depends on inTesting, the flags and the level alone.
+   An early return between the print and the termination block, or a guard that reads another variable, changes
+   the generated function and breaks this proof. *)
+Theorem C12_gen_after_print : forall in_testing in_benching is_debugging is_debug flags lvl msg kvps tr,
+  Termination.after_print in_testing in_benching is_debugging is_debug flags lvl msg kvps tr
+  = Some (term_of (termination_ref in_testing flags lvl) msg, tr ++ [lvl]).
+Proof. exact GenTermP.gen_after_print. Qed.
+Print Assumptions C12_gen_after_print.
+
+(* the process-mode input itself: var inTesting is initialised with is.InTesting() and nothing else (a go test
+   -bench run, a debugger, the debug mode do not count as testing) *)
+Theorem C12_gen_in_testing_init : forall in_testing in_benchmark in_debugging debug_mode debug_build,
+  Termination.in_testing_init in_testing in_benchmark in_debugging debug_mode debug_build = in_testing.
+Proof. exact GenTermP.gen_in_testing_init. Qed.
+Print Assumptions C12_gen_in_testing_init.
 
 (* the two tests of the code (flags&LnoInterrupt == LnoInterrupt, flags&Linterruptalways != 0) are
    tests of bit 20 and bit 21 of the flags word, whatever the other bits are; the constants are
